@@ -783,7 +783,7 @@ def run(ctx):
     ctx.assumptions.append("ORM: None on an attribute means 'omit' (documented), so the oracle expects the default there")
     names_, cases, impl_out, reqs = [], [], [], []
     exhaustive_small(ctx, names_, cases, impl_out, reqs)
-    n = 650 if ctx.tier == "quick" else 12000
+    n = 850 if ctx.tier == "quick" else 12000
     a, b, c, d = explore(ctx, n, ctx.tier)
     names_ += a
     cases += b
